@@ -514,6 +514,9 @@ theorem clone_spec (s : Sl α) :
     (clone s).items = s.items ∧ (clone s).fresh = true ∧ Sl.callerAfter s (clone s) = s.arr :=
   ⟨Proofs.Helpers.items_clone s, rfl, rfl⟩
 
+example : (clone (Sl.withSpare [1, 2] [-7])).items = [1, 2] ∧ (clone (Sl.withSpare [1, 2] [-7])).fresh = true ∧
+    Sl.callerAfter (Sl.withSpare [1, 2] [-7]) (clone (Sl.withSpare [1, 2] [-7])) = [1, 2, -7] := by decide
+
 /-- `Compact`: "only the first item from each contiguous run of the same item", in a new slice (the
 input is not modified). -/
 theorem compact_spec [DecidableEq α] (zero : α) (s : Sl α) :
@@ -724,6 +727,8 @@ theorem orderedLess_spec : (∀ a b : Int, orderedLess a b = true ↔ a < b) ∧
   · simp only [h, decide_eq_true_eq]; omega
   · simp only [h, decide_eq_false_iff_not]; omega
 
+example : orderedLess (-1) 2 = true ∧ orderedLess 2 2 = false ∧ orderedLess 3 2 = false := by decide
+
 /-- `Slice`: "sorts x in-place using the given less function" (`sort.Slice` with the index adapter
 `less(x[i], x[j])`, generated): the items afterwards are a permutation of the items before, sorted
 by `less`; in `x`'s own array, spare capacity untouched. Which arrangement of equivalent items
@@ -757,6 +762,9 @@ theorem sortSliceStable_spec (zero : α) (x : Sl α) (less : α → α → Bool)
 theorem sortSliceIsSorted_spec (zero : α) (x : Sl α) (less : α → α → Bool) (hw : StrictWeak less) (hx : x.WF) :
     sortSliceIsSorted zero x less = true ↔ SortedBy less x.items :=
   Proofs.Helpers.sortSliceIsSorted_iff zero x less hw hx
+
+example : (sortSlice 0 (Sl.withSpare [3, 1, 2] [-7]) (fun a b => decide (a < b))).arr = [1, 2, 3, -7] ∧
+    (Sl.withSpare [3, 1, 2] [-7]).WF := ⟨by decide, by simp [Sl.WF, Sl.withSpare]⟩
 
 example : (sortSliceStable 0 (Sl.ofList [5, 2, 4, 3]) (fun a b => decide (a / 2 < b / 2))).items = [2, 3, 5, 4] ∧
     sortSliceIsSorted 0 (Sl.ofList [2, 3, 5, 4]) (fun a b => decide (a / 2 < b / 2)) = true ∧
